@@ -42,6 +42,27 @@ DESC = {
  'C17_m2': ('C17', 'join loop breaks after the first error', 'two rules with something to report in one build'),
  'C18_m1': ('C18', 'forget_replaced runs after hashing in the no-rebuild branch', 'tick clock; restored file with the displaced file\'s mtime + dependent'),
  'C18_m2': ('C18', 'take_blob keeps entries, insert_blob skips empty states', 'tick clock; as m1 plus one more revert-and-build'),
+
+ 'C19_m1': ('C19', 'routes rebuilt without the implicit end-of-path check', 'request path with extra segments after a cached hash / recorded pair'),
+ 'C19_m2': ('C19', 'server memoises decoded rule histories', 'the same server process alive across builds by another ruler process'),
+ 'C01b_m1': ('C01', 'targets/sources sorted after sub-indices were recorded', 'as C01_m1 (bundle order differs from string order)'),
+ 'C01b_m2': ('C01', 'clean files a target under its recorded hash without looking at the mtime', 'build, hand-modify target, clean, build'),
+ 'C01b_m3': ('C01', 'timestamp <= and forget_replaced only for downloads (two sites)', 'chain; build, edit, build, revert, build'),
+ 'C02b_m1': ('C02', 'histories written only after a fully successful build', 'as C02_m1'),
+ 'C02b_m2': ('C02', 'history written in place + zero-length file read as empty history (two sites)', 'fault between truncation and write of a history file during a later build'),
+ 'C02b_m3': ('C02', 'failed restore rename classified by error value', 'real file system semantics; target in a sub-directory, cleaned, its directory removed by the user'),
+ 'C05b_m1': ('C05', 'self-dependence test only on the entered target', 'multi-target rule sourcing one of its other targets -> deadlock'),
+ 'C05b_m2': ('C05', 'early exit on first cancel; four of five send sites tolerate a closed channel', 'rule with a cancelling source sorted before a missing leaf; leaf reports after the rule has left'),
+ 'C05b_m3': ('C05', 'failed history read: continue spawning, return after joining', 'damaged history file of a rule with a source or dependent'),
+ 'C06b_m1': ('C06', 'cache entry hashed between is_file and rename', 'shared cache entry; loser opens the entry after the winner renamed it'),
+ 'C06b_m2': ('C06', 'backup staged under <ticket>.tmp then renamed', 'two rules displacing byte-identical stale targets in one build; stage, stage, publish, publish'),
+ 'C06b_m3': ('C06', 'early exit on first cancel with one strict sender left', 'rule with two failing sources, the later one a missing leaf'),
+ 'C08b_m1': ('C08', 'absent target: all NeedsRebuild at once (no history case)', 'multi-target rule without history, absent target sorted before a hand-edited one'),
+ 'C08b_m2': ('C08', 'timestamp == becomes <=', 'kill after a restore before the table write, then build; or back-dated file'),
+ 'C08b_m3': ('C08', 'clean uses the recorded hash when there is one', 'build, hand-edit one of two identical outputs, clean'),
+ 'C11b_m1': ('C11', 'history serialised through an unflushed BufWriter: rename before write', 'kill between the rename and the write'),
+ 'C11b_m2': ('C11', 'cache/ and history/ created only with .ruler', 'as C11_m1'),
+ 'C11b_m3': ('C11', 'leftover current_file_states.tmp promoted before reading', 'kill during a table save after the temp file was created'),
 }
 rows = []
 for d in sorted(glob.glob('/verif/seeded/*/')):
